@@ -112,7 +112,7 @@ class Result:
         self.levels = []
 
 
-def explore(factory, max_depth, workers=None, max_states=None, seed_histories=(), keep_hist=False, progress=None):
+def explore(factory, max_depth, workers=None, max_states=None, seed_histories=(), keep_hist=False, progress=None, budget_s=None):
     """Breadth-first search from the initial state (and optional seeded histories)."""
     _set_factory(factory)
     workers = workers or min(16, os.cpu_count() or 1)
@@ -131,6 +131,10 @@ def explore(factory, max_depth, workers=None, max_states=None, seed_histories=()
             seen[k] = tuple(tuple(o) for o in h)
             level.append(tuple(tuple(o) for o in h))
     depth = 0
+    import time as _time
+
+    t_start = _time.time()
+    out_of_time = False
     try:
         while level:
             if depth >= max_depth:
@@ -144,6 +148,11 @@ def explore(factory, max_depth, workers=None, max_states=None, seed_histories=()
             collected = []
             for r in results:
                 collected.append(r)
+                if budget_s is not None and _time.time() - t_start > budget_s:
+                    out_of_time = True
+                    res.caps.append("time budget %ds: level %d only partially expanded (%d of %d states)" % (budget_s, depth + 1, len(collected), len(jobs)))
+                    pool.terminate()
+                    break
             # deterministic merge order
             collected.sort(key=lambda r: repr(r[0]))
             for (hist, out, vios, obs, stats, err) in collected:
@@ -168,6 +177,9 @@ def explore(factory, max_depth, workers=None, max_states=None, seed_histories=()
                         nxt.append(h2)
             depth += 1
             res.levels.append(len(nxt))
+            if out_of_time:
+                level = nxt
+                break
             if progress:
                 progress(depth, len(seen), res.transitions)
             if max_states is not None and len(seen) > max_states:
